@@ -138,6 +138,7 @@ func genContentType(t *tape.Tape) *refcbor.Item {
 type LayerOpts struct {
 	Alg      *int64 // alg value to place in the protected bucket (nil: none)
 	AlgText  string // alg as text instead (when Alg == nil and non-empty)
+	AlgItem  *refcbor.Item // any item as the alg value (when Alg == nil and AlgText == "")
 	MaxExtra int    // upper bound on additional labels per bucket
 	NoCrit   bool
 	Steer    bool // steer the encoded protected size across 23/24, 255/256 (and 65535/65536 in thorough runs)
@@ -162,6 +163,8 @@ func genLayer(t *tape.Tape, o LayerOpts) Layer {
 		add(&l.Prot, refcbor.Uint(1), refcbor.Int(*o.Alg))
 	} else if o.AlgText != "" {
 		add(&l.Prot, refcbor.Uint(1), refcbor.Tstr(o.AlgText))
+	} else if o.AlgItem != nil {
+		add(&l.Prot, refcbor.Uint(1), o.AlgItem)
 	}
 	ivUsed := false
 	genEntry := func(b *Bucket, protected bool) {
@@ -441,9 +444,12 @@ func bucketToGo(b Bucket, sp Spelling, typedAlg bool) map[any]any {
 			gv = itemToGo(v, plain, false)
 		case isInt && lbl == refcose.LAlg && v.IsInt():
 			a, _ := v.Int64()
-			if typedAlg {
+			switch {
+			case typedAlg:
 				gv = cose.Algorithm(a)
-			} else {
+			case sp.T != nil && sp.Values:
+				gv = spellInt(sp.T, a)
+			default:
 				gv = a
 			}
 		default:
